@@ -33,13 +33,13 @@ MANIFEST = {
 }
 
 
-def graph_program(n, kinds, edges, hidden_node=None, attrchain_node=None):
+def graph_program(n, kinds, edges, hidden_node=None, attrchain_node=None, hidden_edges=()):
     defs = []
     for i in range(n):
         body = {"e": "x"}
         for (a, b) in edges:
             if a == i:
-                call = {"e": "hidden", "f": "f%d" % b, "via": "globals"} if hidden_node == i else {"e": "call", "f": "f%d" % b}
+                call = {"e": "hidden", "f": "f%d" % b, "via": "globals"} if (hidden_node == i or (a, b) in hidden_edges) else {"e": "call", "f": "f%d" % b}
                 if attrchain_node == i:
                     call["form"] = "attrchain"
                 body = {"e": "add", "a": body, "b": call}
@@ -64,6 +64,20 @@ def exhaustive_cases(max_n):
                     hn = srcs[mask % len(srcs)]
                     yield {"program": graph_program(n, kinds, es, hidden_node=hn), "src": "exhaustive-hidden", "n": n, "chained": bool(mask % 2)}
                     yield {"program": graph_program(n, kinds, es, attrchain_node=srcs[(mask + 1) % len(srcs)]), "src": "exhaustive-attrchain", "n": n}
+
+
+def mixed_edge_cases():
+    """
+    three nodes, f0 with an automatic version: f0 names f1 and reaches f2 only dynamically, f1 names f2 - every kind of f1
+    and f2, the dynamic call before or after the named one (whatever f1 did or recorded, f0's own dynamic call to a
+    function outside its closure is refused; if f1 is a plain helper, f2 is inside the closure)
+    """
+    for k1 in "mpe":
+        for k2 in "mpe":
+            for es in ([(0, 1), (0, 2), (1, 2)], [(0, 2), (0, 1), (1, 2)]):
+                for inner_dynamic in (False, True):   # f1 names f2, or reaches it dynamically too
+                    yield {"program": graph_program(3, "m" + k1 + k2, es, hidden_edges=((0, 2), (1, 2)) if inner_dynamic else ((0, 2),)),
+                           "src": "mixed-edges", "n": 3, "chained": False}
 
 
 def evolution_cases():
@@ -347,7 +361,7 @@ def run_shard(ctx):
     thorough = ctx.tier == "thorough"
     ex = lambda c: execute(c, ctx.scratch)  # noqa: E731
     dl = (lambda frac: max((ctx.deadline - time.time()) * frac, 5) if ctx.deadline else None)
-    complete = core.enum_search(itertools.chain(evolution_cases(), exhaustive_cases(3 if thorough else 2)), ex, stats, findings=ctx.findings, shard=ctx.shard,
+    complete = core.enum_search(itertools.chain(evolution_cases(), mixed_edge_cases(), exhaustive_cases(3 if thorough else 2)), ex, stats, findings=ctx.findings, shard=ctx.shard,
                                 nshards=ctx.nshards, deadline_s=dl(0.7))
     stats.extra["exhaustive_graphs"] = stats.evaluations
     stats.extra["exhaustive_complete"] = bool(complete)
